@@ -13,7 +13,8 @@
 //!         | {"id":.., "rejected": true, ..} | {"id":.., "lowering_panic": msg}
 //!   FN = {"name": fname, "params": [x..] (the HIR parameters, `_this` first), "src": X, "stmts": [S..], "ret": E}
 //!        + "method": bool, "class": text, "pk": [K..] kinds of the source parameters, "rk": K kind of the result
-//!   K = "int"|"bool"|"unit"|"str"|"fn"|"other"|["class", text];  "structs": {class text: [K..] fields | null (generic)}
+//!   K = "int"|"bool"|"unit"|"str"|"fn"|"other"|["class", text];  "structs": {class text: [K..] fields | null (generic)};
+//!   "enums": {class text: [[K..] payload per variant ..] | null (generic)}
 //!   "synthetic_functions": {fname: {"params", "stmts", "ret"}} the functions made for lambdas (`_GenFn.<k>`)
 //!   "constructors": the HIR functions whose body is the one StructInit of their own parameters (lower_constructors)
 //!   fname = "M:<module>.<class>.<fn>" | "G:<type parameter>.<fn>"
@@ -310,9 +311,34 @@ fn dump(job: &Value) -> Value {
   let concat = fname_parts(&heap, Some(ModuleReference::ROOT), PStr::STR_TYPE, PStr::CONCAT);
   let mut functions = Vec::new();
   let mut structs = serde_json::Map::new();
+  let mut enums = serde_json::Map::new();
   for (m, module) in checked.iter() {
     for toplevel in &module.toplevels {
       let source::Toplevel::Class(c) = toplevel else { continue };
+      if let Some(source::TypeDefinition::Enum { variants, .. }) = c.type_definition.as_ref() {
+        let generic = c.type_parameters.is_some();
+        enums.insert(
+          format!("{}.{}", m.pretty_print(&heap), c.name.name.as_str(&heap)),
+          if generic {
+            Value::Null
+          } else {
+            Value::Array(
+              variants
+                .iter()
+                .map(|v| {
+                  Value::Array(
+                    v.associated_data_types
+                      .iter()
+                      .flat_map(|l| l.annotations.iter())
+                      .map(|a| tkind(&heap, &Type::from_annotation(a)))
+                      .collect(),
+                  )
+                })
+                .collect(),
+            )
+          },
+        );
+      }
       if let Some(source::TypeDefinition::Struct { fields, .. }) = c.type_definition.as_ref() {
         let generic = c.type_parameters.is_some();
         structs.insert(
@@ -374,7 +400,7 @@ fn dump(job: &Value) -> Value {
   }
   json!({"id": id, "functions": functions, "constructors": constructors, "concat": concat, "synthetic": synthetic,
          "synthetic_functions": synthetic_functions,
-         "structs": structs})
+         "structs": structs, "enums": enums})
 }
 
 pub fn main(_args: &[String]) {
